@@ -224,7 +224,7 @@ def run(prop, judge, tier, seed, t0, cls="monoidal", invariants=(), drift=False,
         # (the rigid normal form yanks snakes: its results are judged by C07, not as interchanges)
         n_hist, n_calls = filter_ops(files + files2, ops, trace_file)
         # leg 3: trace validation
-        val = core.validate(trace_module, judge, trace_file, work)
+        val = core.validate_parallel(trace_module, judge, trace_file, work)
         verdicts = [v for v in val["verdicts"]]
         rows = core.read_ndjson(trace_file)
         if len(rows) != len(verdicts):
@@ -246,7 +246,7 @@ def run(prop, judge, tier, seed, t0, cls="monoidal", invariants=(), drift=False,
         can = canary(trace_module, judge, trace_file, verdicts, work, CANARY_OPS[prop] or ops)
         drift_count = None
         if drift:
-            dv = core.validate(trace_module, "JDrift", trace_file, work)
+            dv = core.validate_parallel(trace_module, "JDrift", trace_file, work)
             drift_count = dict(Counter(x for v in dv["verdicts"] for x in v if x != "ok"))
         lap("canary+drift")
         op_count = Counter(c["op"] for t in rows for c in t["calls"])
